@@ -534,6 +534,13 @@ class ClockScheduler():
         self.queue.clear()
         self._clock_tasks.clear()
 
+    def update(self, clock):
+        # The tempo or beats of clock changed, its pending
+        # tasks are scheduled in beats as in rt mode.
+        for clock_task in list(self._clock_tasks.values()):
+            if clock_task.clock is clock:
+                self.add(clock.beats2secs(clock_task.beats), clock_task)
+
 
 class ClockTask():
     def __new__(cls, beats, clock, task, scheduler):
@@ -549,6 +556,7 @@ class ClockTask():
         self.clock = clock
         self.task = task
         self.scheduler = scheduler
+        self.beats = beats
         scheduler.add(clock.beats2secs(beats), self)
 
     def _wakeup(self, time):
@@ -964,7 +972,7 @@ class TempoClock(Clock, metaclass=MetaTempoClock):
         # en tempo_
         mdl.NotificationCenter.notify(self, 'tempo')
         if self.mode == _libsc3.main.NRT_MODE:
-            return
+            _libsc3.main._clock_scheduler.update(self)
         else:
             with self._sched_cond:
                 self._sched_cond.notify()  # NOTE: is notify_one in C++.
@@ -993,7 +1001,7 @@ class TempoClock(Clock, metaclass=MetaTempoClock):
         # etempo_
         mdl.NotificationCenter.notify(self, 'tempo')
         if self.mode == _libsc3.main.NRT_MODE:
-            return
+            _libsc3.main._clock_scheduler.update(self)
         else:
             with self._sched_cond:
                 self._sched_cond.notify()  # NOTE: is notify_one in C++.
@@ -1051,7 +1059,7 @@ class TempoClock(Clock, metaclass=MetaTempoClock):
         self._base_beats = value
         self._beat_dur = 1.0 / self._tempo
         if self.mode == _libsc3.main.NRT_MODE:
-            return
+            _libsc3.main._clock_scheduler.update(self)
         else:
             with self._sched_cond:
                 self._sched_cond.notify()  # NOTE: is notify_one in C++
